@@ -16,6 +16,7 @@
 #include "common.h"
 #include "atomic.h"
 #include "vp_nondet.h"
+#include "vp_native.h"
 
 #ifdef VP_CPROVER
 #define VP_ASSERT(c, msg) __CPROVER_assert ((c), msg)
@@ -49,6 +50,8 @@ struct vp_mu_ghost {
 	uint32_t enq_count;   /* number of enqueue transitions made */
 	int observer;    /* C16: this thread is a pure observer (debug): must not change anything but the spinlock bit */
 	uint32_t last_new; /* last value this thread wrote */
+	int last_cond;     /* result of the most recent condition evaluation by this thread */
+	int last_sem_outcome; /* result of the most recent nsync_sem_wait_with_cancel_ */
 };
 extern struct vp_mu_ghost vp_g;
 
@@ -66,6 +69,8 @@ extern struct vp_registry vp_reg;
 extern int vp_tag_C14_escalate, vp_tag_C03_wake_acq, vp_tag_C06_eval_held, vp_tag_C02_resp, vp_tag_C07_once, vp_tag_C12_sem, vp_tag_C10_cnt, vp_tag_C11_wait, vp_tag_C16_buf, vp_tag_C05_reason, vp_tag_C13_dead, vp_tag_C01_hold;
 void vp_tags_init (void);
 void vp_reg_clear (void);
+int vp_condition (const void *arg);   /* the client's condition: arbitrary result; C06: only ever called with the mutex held */
+extern waiter vp_my_w; /* this thread's own (reserved) waiter record */
 extern waiter vp_fw;   /* the abstract queue's foreign waiter record (arbitrary contents) */
 
 /* projection of the global invariant J on this thread's ghost */
